@@ -545,6 +545,12 @@ func ringProvenanceP(info *types.Info, e ast.Expr, rangeOf map[types.Object]ast.
 		if sel, ok := ast.Unparen(x.X).(*ast.SelectorExpr); ok && sel.Sel.Name == "Holes" {
 			return "hole"
 		}
+		// indexing a parameter that the callers fill with a polygon's holes
+		if id, ok := ast.Unparen(x.X).(*ast.Ident); ok && paramProv != nil {
+			if po := info.Uses[id]; po != nil && paramProv(po) == "holes" {
+				return "hole"
+			}
+		}
 	}
 	return "unknown"
 }
